@@ -1695,8 +1695,18 @@ class SSHConnection(SSHPacketHandler, asyncio.Protocol):
             exc_reason = 'Strict key exchange violation: ' \
                          f'unexpected packet type {pkttype} received'
         elif MSG_USERAUTH_FIRST <= pkttype <= MSG_USERAUTH_LAST:
-            if self._auth:
+            # The first message of a method's own dialogue (PK_OK, an info
+            # or password change request) answers a request of the client.
+            # Only take it as such while one is waiting for an answer, and
+            # consider nothing outstanding again until the client has sent
+            # its next message.
+            if self._auth and (pkttype != MSG_USERAUTH_FIRST or
+                               self._auth_request_pending or
+                               not self.is_client()):
                 handler = self._auth
+
+                if pkttype == MSG_USERAUTH_FIRST:
+                    self._auth_request_pending = False
             else:
                 skip_reason = 'auth not in progress'
                 exc_reason = 'Authentication not in progress'
@@ -2073,6 +2083,9 @@ class SSHConnection(SSHPacketHandler, asyncio.Protocol):
 
         self._auth_was_trivial &= trivial
         self.send_packet(pkttype, *args, handler=handler)
+
+        if self.is_client():
+            self._auth_request_pending = True
 
     async def send_userauth_request(self, method: bytes, *args: bytes,
                                     key: Optional[SigningKey] = None,
